@@ -17,7 +17,7 @@ def tree_specs(tier, seed, salt=""):
         out.append(("1:%s" % m, "%s:0" % m, False))
         if m in QUAT:
             out.append(("1:%s:euler" % m, "%s:0" % m, True))
-    revs = MOBS1[:-1] if tier == "thorough" else rng.sample(MOBS1[:-1], 5)
+    revs = MOBS1[:-1]     # every mobilizer reversed, both tiers (reversal bugs are mobilizer specific)
     for m in revs:
         out.append(("1:%s:rev" % m, "%s:0r" % m, False))
     # two-body chains Ground-Pin-X and Ground-X-Pin
